@@ -300,6 +300,7 @@ static void ds_case(uint64_t idx, void *ctx)
 int main(int argc, char **argv)
 {
     mc_init("C11", argc, argv);
+    libast_debug_level = (unsigned) mc_dlevel();        /* --dlevel=N: the whole run at runtime debug level N (default 0) */
     int N = (int) mc_arg_int("N", mc_thorough() ? 3 : 2);
     mc_info("alphabet", "(1) files of <= %d lines from %d hostile line kinds x {normal, no final newline, magic without '>', 300-byte magic} + 6 special files; (2) find_file: 10 file lengths x 11 dir choices x 31 pathlist shapes (0..70000 chars); "
             "(3) spawn-trap positive controls, temp_file: 4 umasks x TMPDIR/TMP set/unset x 4 template lengths x 50 files; (4) lifecycle E1 over {init, register_context, register_context(null) again, register_builtin, parse, %%put, %%get, %%dirscan, parse_line(NULL,..), free}, 2 cycles; counter sweep 0..300", N, NHOST);
